@@ -92,8 +92,9 @@ TIMES = [0, 1, 59, 60, 3599, 3600, 86399, 86400, 68169599, 68169600, 951782399, 
 
 SHOWN_TYPES = [0, 1, 2, 3, 4, 5, 6, 7, 8, 11, 12, 13, 14, 15, 18, 19]      # value printed, modelled
 ERROR_TYPES = [16, 17, 20, 21, 22, 255]                                     # fixed text printed
-USER_NAMES = ["userElem", "x", "a b", "na:me", "n\u00e9", "\u540d\u524d", "q\"uote", "back\\slash", "<tag>&", "e\u2028l", "tab\there", ""]
-STR_ALPHABET = (list("abcdefghijklmnopqrstuvwxyz-/0123456789 .:,=()[]") +
+USER_NAMES = ["userElem", "x", "a b", "pct%d%s", "na:me", "n\u00e9", "\u540d\u524d", "q\"uote", "back\\slash", "<tag>&", "e\u2028l", "tab\there", ""]
+# ('%': a rendered entry must never be used as a printf format; 'd', 's', 'v', '!' follow it often enough to form verbs)
+STR_ALPHABET = (list("abcdefghijklmnopqrstuvwxyz-/0123456789 .:,=()[]") + ["%", "%", "%d", "%s", "%v", "%!", "%%", "100%"] +
                 ["\"", "\\", "<", ">", "&", "'", "\n", "\r", "\t", "\x00", "\x01", "\x08", "\x0c", "\x1f", "\x7f", "\u00e9", "\u00ff",
                  "\u0100", "\u07ff", "\u0800", "\u2027", "\u2028", "\u2029", "\u202a", "\ufffd", "\uffff", "\U00010000",
                  "\U0001f600", "\U0010ffff"])
